@@ -12,6 +12,7 @@ EXTENDS Wire, Json, FiniteSets, SequencesExt
 P == <<43, 6, 1, 4, 1, 206, 15>>          \* 1.3.6.1.4.1.9999
 Univ == { P \o <<4, 1>>,                  \* before the subtree
           P \o <<5, 1>>,                  \* B.1
+          P \o <<5, 2>>,                  \* B.2: a sibling of the leaf B.1 with an encoding of the same length
           P \o <<5, 127, 1>>,             \* B.127.1
           P \o <<5, 129, 0>>,             \* B.128          (81 00)
           P \o <<5, 129, 0, 7>>,          \* B.128.7
